@@ -272,6 +272,8 @@ class Session(object):
         guard = 0
         while True:
             guard += 1
+            if self.lost:
+                break       # the connection went away re-entrantly (from inside a callback)
             if guard > max_chunks:
                 self.exceptions.append(("harness", self.chunk_no, "chunk limit"))
                 break
